@@ -347,18 +347,49 @@ func (e *Evaluator) evalForStmt(node *ast.ForStmt, env *object.Env) object.Objec
 			return post
 		}
 
-		initStmt, ok := node.Init.(*ast.AssignStmt)
-		if !ok {
+		// an assignment has already bound its variable
+		if _, isAssign := node.Post.(*ast.AssignStmt); isAssign {
 			continue
 		}
 
-		err := newEnv.Set(initStmt.Name.Value, post)
+		// the value of the post clause is bound to the variable of the
+		// init clause or, without one, to the variable the post clause steps
+		target := forPostTarget(node)
+		if target == "" {
+			continue
+		}
+
+		err := newEnv.Set(target, post)
 		if err != nil {
 			return e.newError(node, "%s", err.Error())
 		}
 	}
 
 	return &object.HTML{Value: blocks.String()}
+}
+
+// forPostTarget returns the name of the variable that receives the value
+// of the post clause of a for loop, or "" when there is none
+func forPostTarget(node *ast.ForStmt) string {
+	if initStmt, ok := node.Init.(*ast.AssignStmt); ok {
+		return initStmt.Name.Value
+	}
+
+	stmt, ok := node.Post.(*ast.ExpressionStmt)
+	if !ok {
+		return ""
+	}
+
+	postfix, ok := stmt.Expression.(*ast.PostfixExp)
+	if !ok {
+		return ""
+	}
+
+	if ident, ok := postfix.Left.(*ast.Identifier); ok {
+		return ident.Value
+	}
+
+	return ""
 }
 
 func (e *Evaluator) evalEachStmt(node *ast.EachStmt, env *object.Env) object.Object {
